@@ -222,7 +222,9 @@ CONFIG["C07"] = dict(
                "get the same public result (both fail, or the same group key and public key shares, each with its own combined private share), given reliable broadcast with synchronous rounds for every third-party dealer's instance (NetD; these dealers and all other participants arbitrary) "
                "and honest-dealer delivery for the two instances A and B deal themselves (OwnNet, for the vector the dealer really holds after Start). It rests on joint_execution_is_instancewise (the API run is exactly the n per-instance runs: JI invariant over every call) and joint_instances_after_start "
                "(fresh receiver instances, and the own dealer instance satisfying DS); a non-vacuity example runs the API with both Start calls succeeding and End returning keys at both. "
-               "What remains an assumption rather than a consequence: OwnNet is stated as a delivery hypothesis (the receiver gets the dealer's vector and a valid share in round one, answers are valid, at most t complainers); that the dealer's own Start outputs satisfy it when delivered is exercised by the runs, not proved.",
+               "The round-one content of OwnNet is discharged from the dealer's own Start (Proofs/DkgEmit): dealer_start_outputs - Start emits the broadcast of the verification vector of the polynomial it drew and one private share message a(i+1) per other participant - and receiver_accepts_dealer_emission - "
+               "under the laws tying the writers of the crypto record to its readers (OpsLaws: the serialized vector parses back, a written share reads back, the Feldman check accepts a(i+1) against the vector of a; satisfiable: example) a receiver classifies exactly these messages, in every state, as the dealer's vector and its own valid share. "
+               "What remains a hypothesis: the delivery itself (these messages arrive in round one, unaltered and once), that every complainer is answered in time with a valid answer, and at most t complainers.",
     level_note="Lean kernel + correspondence; reliable broadcast and round synchrony are assumptions of the property, implemented by the scheduler",
     assumptions=["reliable broadcast, round-synchronous delivery, at most t Byzantine participants"],
 )
